@@ -630,6 +630,41 @@ def gen_ent():
     write("Ent.lean", text)
 
 
+def gen_promo():
+    """the hand-over (src/server/{mod,receiver}.rs, src/client/{mod,receiver}.rs)"""
+    def sq(src):
+        return re.sub(r"\s+", "", src)
+    smod_src = strip_comments(open(os.path.join(REPO, "src/server/mod.rs")).read())
+    cmod_src = strip_comments(open(os.path.join(REPO, "src/client/mod.rs")).read())
+    smod, srecv = sq(smod_src), sq(strip_comments(open(os.path.join(REPO, "src/server/receiver.rs")).read()))
+    crecv = sq(strip_comments(open(os.path.join(REPO, "src/client/receiver.rs")).read()))
+    request = "server.send_message(event.id,DefaultChannel::ReliableOrdered,bincode::serialize(&Message::PromoteToHost{}).unwrap(),);" in sq(fn_body(smod_src, "promote_to_host_event_reader"))
+    starts = "cmd.add(move|world:&mutWorld|{world.insert_resource(create_server(ip,port));world.resource_mut::<SyncTrackerRes>().host_promotion_in_progress=true;});" in crecv.replace('info!("Promotion:Startingashost...");', "")
+    announces = ("OnEnter(ServerState::Connected),server_promoted_is_ready.run_if(resource_exists::<NetcodeClientTransport>)," in smod
+                 and "client.send_message(DefaultChannel::ReliableOrdered,message);" in sq(fn_body(smod_src, "server_promoted_is_ready"))
+                 and "Message::NewHost{params:connection_parameters.clone(),}" in sq(fn_body(smod_src, "server_promoted_is_ready")))
+    srecv_n = re.sub(r'info!\("[^"]*"\);', "", srecv)
+    host_handler = ("server.disconnect(client_id);repeat_except_for_client(client_id,server,&Message::NewHost{params});cmd.add(move|world:&mutWorld|{world.resource_mut::<SyncTrackerRes>().host_promotion_in_progress=true;"
+                    "world.insert_resource(bevy_renet::renet::RenetClient::new(bevy_renet::renet::ConnectionConfig::default()));world.insert_resource(create_client(ip,port));});") in srecv_n
+    crecv_n = re.sub(r'info!\("[^"]*"\);', "", crecv)
+    client_handler = ("client.disconnect();cmd.remove_resource::<NetcodeClientTransport>();cmd.insert_resource(RenetClient::new(bevy_renet::renet::ConnectionConfig::default()));"
+                      "cmd.insert_resource(create_client(ip,port));track.host_promotion_in_progress=true;") in crecv_n
+    cc = re.sub(r'info!\((?:[^()]|\([^()]*\))*\);', "", sq(fn_body(smod_src, "client_connected")))
+    closes = "ifserver.connected_clients()==0&&tracker.host_promotion_in_progress{server.disconnect_all();cmd.remove_resource::<NetcodeServerTransport>();tracker.host_promotion_in_progress=false;}" in cc
+    drops = "iftracker.host_promotion_in_progress{cmd.remove_resource::<NetcodeClientTransport>();tracker.host_promotion_in_progress=false;}" in cc
+    first = "(client_connected,receiver::poll_for_messages).chain()" in smod
+    vb = re.sub(r'info!\("[^"]*"\);', "", sq(fn_body(cmod_src, "verify_client_connected")))
+    verify = ("if!tracker.host_promotion_in_progress{cmd.add(|world:&mutWorld|{" in vb and "bincode::serialize(&Message::RequestInitialSync{}).unwrap()," in vb
+              and "}else{tracker.host_promotion_in_progress=false;}" in vb)
+    text = "/-! GENERATED by /verif/translate/translate.py from src/server/{mod,receiver}.rs, src/client/{mod,receiver}.rs — do not edit. -/\nnamespace BevySync\nnamespace Generated\n\n"
+    for name, val in (("promoRequestSent", request), ("promoPromotedStartsServer", starts), ("promoPromotedAnnounces", announces),
+                      ("promoHostHandler", host_handler), ("promoClientHandler", client_handler), ("promoHostClosesWhenEmpty", closes),
+                      ("promoPromotedDropsClient", drops), ("promoEventsBeforeMessages", first), ("promoVerifySkipsSnapshotOnFlag", verify)):
+        text += "def %s : Bool := %s\n" % (name, str(bool(val)).lower())
+    text += FOOTER
+    write("Promo.lean", text)
+
+
 def gen_snap():
     """the joining snapshot (src/server/{receiver,initial_sync}.rs, src/full_sync/mod.rs, src/client/receiver.rs)"""
     def squash_src(src):
@@ -750,6 +785,7 @@ def gen_asset():
 
 def main():
     try:
+        gen_promo()
         gen_snap()
         gen_ent()
         gen_asset()
